@@ -448,8 +448,15 @@ class Ctx:
         h[str(key)] = h.get(str(key), 0) + 1
 
     # ---- reporting -----------------------------------------------------------------------------
+    def evidence_dir(self):
+        """evidence/ for the repository itself; a scratch place for any other tree under test (selftest,
+        seeded changes), so that committed evidence is never overwritten by a run on a modified tree."""
+        if str(REPO) == "/repo":
+            return VERIF / "evidence"
+        return self.bdir / "evidence"
+
     def replay_path(self, obj):
-        d = VERIF / "evidence" / "replay"
+        d = self.evidence_dir() / "replay"
         d.mkdir(parents=True, exist_ok=True)
         blob = json.dumps(obj, sort_keys=True, default=repr)
         p = d / ("%s-%s.json" % (self.prop, hashlib.sha1(blob.encode()).hexdigest()[:12]))
@@ -494,8 +501,8 @@ class Ctx:
             "coverage": self.cov, "assumptions": self.assumptions or default_assumptions(),
             "wall_s": round(time.time() - self.t0, 2), "violations": len(self.violations),
         }
-        (VERIF / "evidence").mkdir(exist_ok=True)
-        (VERIF / "evidence" / ("%s.json" % self.prop)).write_text(json.dumps(ev, indent=1, default=repr) + "\n")
+        self.evidence_dir().mkdir(parents=True, exist_ok=True)
+        (self.evidence_dir() / ("%s.json" % self.prop)).write_text(json.dumps(ev, indent=1, default=repr) + "\n")
         seen = set()
         for path, noinput, what in self.violations:
             if path in seen:
